@@ -296,6 +296,17 @@ macro_rules! perp_world {
             }
 
             pub fn fees_str(f: &PositionFees<$U>) -> String {
+                // C02 on position fees (exact split): what goes to the pool plus what goes to the fee receiver is exactly what the
+                // position is charged (excluding funding) — order, borrowing and liquidation fees together
+                {
+                    let (pool, recv, total) = (f.for_pool::<$D>(), f.for_receiver(), f.total_cost_excluding_funding());
+                    if let (Ok(pool), Ok(recv), Ok(total)) = (&pool, &recv, &total) {
+                        let sum = (*pool as u128).checked_add(*recv as u128);
+                        if sum != Some(*total as u128) {
+                            crate::perp::FEE_SPLIT_FAILS.lock().unwrap().push(format!("position fees are not split exactly: for_pool {pool} + for_receiver {recv} != total cost excluding funding {total} (liquidation fees: {})", f.liquidation_fees().map(|l| format!("{} of which receiver {}", l.fee_amount(), l.fee_amount_for_receiver())).unwrap_or("none".into())));
+                        }
+                    }
+                }
                 let l = match f.liquidation_fees() { Some(l) => format!("{},{},{}", l.fee_value(), l.fee_amount(), l.fee_amount_for_receiver()), None => "_".into() };
                 format!("{} {} {} {} {} {} {} {} {} {}", f.paid_order_and_borrowing_fee_value(), f.order_fees().fee_amounts().fee_amount_for_pool(), f.order_fees().fee_amounts().fee_amount_for_receiver(),
                     f.order_fees().fee_value(), f.borrowing_fees().fee_amount(), f.borrowing_fees().fee_amount_for_receiver(), f.funding_fees().amount(),
@@ -941,6 +952,11 @@ fn health_any(db64: &HashMap<String, w64::Session>, db128: &HashMap<String, w128
 static POS_MATTERS: std::sync::atomic::AtomicU64 = std::sync::atomic::AtomicU64::new(0);
 
 /// shared main of the `perp` bins: `prop` ∈ {"C07","C08","C09","C10"} selects the oracle.
+/// failures of the position-fee split oracle (filled by `fees_str`, drained by `run_bin` under C02)
+pub static FEE_SPLIT_FAILS: std::sync::Mutex<Vec<String>> = std::sync::Mutex::new(Vec::new());
+
+fn resp_has_liq(rt: &[&str]) -> bool { rt.iter().any(|x| x.matches(',').count() == 2 && x.split(',').all(|y| y.parse::<u128>().is_ok()) && *x != "0,0,0") }
+
 pub fn run_bin(prop: &str) {
     let cli = cli();
     let mut out = Out::new();
@@ -1131,6 +1147,11 @@ pub fn run_bin(prop: &str) {
                     } else { out.stat("c11.partial_close"); if closed != requested { out.stat("c11.partial_close_adjusted"); } }
                     if total != uncapped { out.stat("c11.trader_cap_binds"); }
                 }
+            }
+            // ---------------- C02 on position fees: exact split of order + borrowing + liquidation fees in every report
+            {
+                let fails: Vec<String> = FEE_SPLIT_FAILS.lock().unwrap().drain(..).collect();
+                if prop == "C02" { for w in fails { out.oracle_fail(&w, &req); } if matches!(op, "inc" | "dec") && ok { out.stat("c02.position_fee_reports"); if rt.len() > 8 && rt.last().map_or(false, |_| resp_has_liq(&rt)) { out.stat("c02.with_liquidation_fees"); } } }
             }
             // ---------------- C12 on positions: pending funding defined and never negative, after EVERY operation
             if prop == "C12" || whole {
